@@ -25,15 +25,29 @@ import operator
 import types
 
 from traits.api import (
-    Any, Bool, Bytes, Callable, CBool, CBytes, CComplex, CFloat, CInt, Complex, CStr, CTrait,
-    Dict, Either, Enum, Float, Instance, Int, List, Map, Module, Range, Str, Supports, This,
+    Any, Array, Bool, Bytes, Callable, CBool, CBytes, CComplex, CFloat, CInt, Complex, CStr, CTrait,
+    Dict, Either, Enum, Float, Instance, Int, List, Map, Module, Range, Set, Str, Supports, This,
     Trait, TraitError, Tuple, Union,
 )
 from traits.adaptation.api import AdaptationManager, set_global_adaptation_manager
 
-from vf.util import same, short
+from vf.util import same as _same, short
 from vf.monitors import _c03_lattice as LAT
 from vf.monitors._c03_lattice import lattice, BOUNDS
+
+def same(a, b):
+    """vf.util.same, plus object-dtype arrays compared item by item (array_equal
+    cannot treat NaNs inside an object array as equal)."""
+    if type(a).__module__ == "numpy" and type(a) is type(b) and getattr(a, "dtype", None) == object \
+            and hasattr(a, "flat") and getattr(b, "dtype", None) == object:
+        try:
+            if a.shape != b.shape:
+                return False
+            return all(x is y or (type(x) is type(y) and same(x, y)) for x, y in zip(a.flat, b.flat))
+        except Exception:
+            return False
+    return _same(a, b)
+
 
 META = {
     "level": "exploration",
@@ -42,7 +56,9 @@ META = {
              "exclusion grid, Enum, Map, Tuple, Instance in instance/type/adapt modes, This, "
              "Callable, Module, the legacy Trait() handlers), a fixed list of compounds and seeded "
              "random compounds (Either / Trait(...) of 2-4 members, Tuple-in-Either, Either-in-Tuple, "
-             "nested Either, mixed fast/slow) x the whole value lattice (~350 values: ints, floats incl. "
+             "nested Either, mixed fast/slow, and a stratum of nested compounds whose inner compound "
+             "has List/Dict/Set/Array/int-Range/Union members without a C validator followed by outer "
+             "fast members accepting the same values differently) x the whole value lattice (~350 values: ints, floats incl. "
              "NaNs/bounds, strings, subclasses, numpy scalars/arrays, hostile protocol objects, "
              "containers, classes, callables) plus per-configuration derived tuples for Tuple "
              "shapes. One oracle evaluation = one (configuration, value) pair judged by the C-vs-"
@@ -58,13 +74,15 @@ META = {
                   "compound_accept_via_nonfirst": 6000, "compound_accept_via_slow": 250,
                   "mixed_compound_specs": 12, "tuple_law_evaluations": 7000,
                   "tuple_law_accepts": 450, "alone_validations": 70000,
-                  "py_nonTE_c_TE_allowed": 450, "converted_results": 8000},
+                  "py_nonTE_c_TE_allowed": 250, "converted_results": 8000,
+                  "nested_slow_before_fast_specs": 14, "nested_slow_wins_over_later_fast": 120},
         "thorough": {"evaluations": 1000000, "fast_descriptor_specs": 2500, "both_accept": 350000,
                      "both_reject": 650000, "compound_law_evaluations": 850000,
                      "compound_accept_via_nonfirst": 180000, "compound_accept_via_slow": 8000,
                      "mixed_compound_specs": 400, "tuple_law_evaluations": 180000,
                      "tuple_law_accepts": 33000, "alone_validations": 2200000,
-                     "py_nonTE_c_TE_allowed": 12000, "converted_results": 250000},
+                     "py_nonTE_c_TE_allowed": 6000, "converted_results": 250000,
+                     "nested_slow_before_fast_specs": 250, "nested_slow_wins_over_later_fast": 2000},
     },
     "assumptions": [
         "the handler's Python `validate` method is the specification of the fast path (the "
@@ -204,6 +222,10 @@ def mk(spec):
         return List(mk(spec[1]))
     if k == "Dict":
         return Dict(mk(spec[1]), mk(spec[2]))
+    if k == "Set":
+        return Set(mk(spec[1]))
+    if k == "Array":
+        return Array()
     if k == "Union":
         return Union(*[None if m == ("None",) else mk(m) for m in spec[1:]])
     raise AssertionError(spec)
@@ -591,6 +613,19 @@ class Checker(object):
             ctx.count("compound_accept_via_nonfirst")
         if not a.fast:
             ctx.count("compound_accept_via_slow")
+            # a slow leaf followed by fast leaves only exists through nesting (the
+            # inner compound's slow alternatives stay at the inner compound's
+            # position); the order is observable when a later fast leaf would
+            # accept the value too, with another result
+            for a2 in b.alts[first_ok + 1:]:
+                if not a2.fast:
+                    continue
+                o2 = outcome(a2.ct.validate, obj, v)
+                ctx.count("alone_validations")
+                if o2[0] == "ok" and not (type(o2[1]) is type(r) and same(o2[1], r)):
+                    ctx.count("nested_slow_wins_over_later_fast")
+                    ctx.sig("compound-order", a.kind, a2.kind, cls, oname(c))
+                    break
         ctx.sig("compound", a.kind, cls, min(first_ok, 4), oname(c), min(len(b.alts), 5))
         if c[0] != "ok":
             key = "compound/%s/%s/alone=accept,compound=%s" % (a.kind, cls, oname(c))
@@ -848,6 +883,8 @@ def atomic_specs(full):
         ("Instance", "X", True, "default"), ("Instance", "X", False, "default"),
         ("Instance", "X", True, "default", "factory"), ("Instance", "X", False, "default", "factory"),
         ("Instance", "int", True, "yes"), ("Instance", "Holder", True, "no"),
+        # own stratum: a class None is an instance of, with None disallowed
+        ("Instance", "object", False, "no"),
         ("Supports", "X", True), ("Supports", "X", False),
     ]
     for t in inst:
@@ -926,6 +963,62 @@ def fixed_compounds():
     return out
 
 
+#: members without a C validator (slow) and, for each, later fast alternatives that
+#: accept (some of) the same values with a different result
+_F = False
+SLOW_AND_GREEDY = [
+    (("List", ("Int",)), [("CStr",), ("Instance", "list", True, "no"), ("CBool",)]),
+    (("List", ("Str",)), [("Instance", "Sized", False, "no"), ("CStr",)]),
+    (("Dict", ("Str",), ("Int",)), [("CStr",), ("Instance", "dict", False, "no")]),
+    (("Set", ("Int",)), [("CStr",), ("Instance", "Sized", False, "no")]),
+    (("Tuple",), [("CStr",), ("Instance", "list", False, "no")]),
+    (("Range", 0, 10, _F, _F), [("Float",), ("CStr",)]),
+    (("Union", ("Int",), ("Str",)), [("Float",), ("CBool",)]),
+    (("Array",), [("CStr",), ("Instance", "list", True, "no")]),
+]
+GREEDY = [("CStr",), ("CBool",), ("Instance", "list", True, "no"), ("Instance", "dict", False, "no"),
+          ("Instance", "Sized", False, "no"), ("Instance", "object", True, "no"), ("Float",),
+          ("CFloat",), ("CBytes",), ("Instance", "tuple", True, "no")]
+FAST_SIMPLE = [("Int",), ("Bool",), ("Str",), ("Float",), ("Bytes",), ("Complex",),
+               ("Enum", "ab"), ("Instance", "X", False, "no"), ("Callable", False),
+               ("Tuple", ("Int",), ("Int",)), ("Map", "one"), ("This", False)]
+
+
+def nested_mixed_compounds():
+    """Stratum: an inner compound with an alternative that has no C validator,
+    followed in the outer compound by a fast alternative that accepts the same
+    values with a different result (the order of the flattened table matters)."""
+    out = []
+    for slow, greedy in SLOW_AND_GREEDY:
+        for i, g in enumerate(greedy):
+            if i % 2 == 0:
+                out.append(("Either", ("Int",), ("Either", ("Bool",), slow), g))
+            else:
+                out.append(("Either", ("Either", slow, ("Bytes",)), g, ("Int",)))
+    # deeper nesting, two slow members, slow member first in the inner compound
+    out.append(("Either", ("Either", ("Bool",), ("Either", ("Int",), ("List", ("Int",)))), ("CStr",)))
+    out.append(("Either", ("Bytes",), ("Either", ("List", ("Int",)), ("Dict", ("Str",), ("Int",)), ("Int",)),
+                ("Instance", "Sized", False, "no")))
+    out.append(("Either", ("Either", ("Set", ("Int",)), ("Str",)), ("Either", ("Int",), ("CStr",))))
+    return out
+
+
+def random_nested_mixed(rng):
+    slow = [s for s, _ in SLOW_AND_GREEDY]
+    inner = [rng.choice(FAST_SIMPLE), rng.choice(slow)]
+    if rng.random() < 0.3:
+        inner.append(rng.choice(slow + FAST_SIMPLE))
+    rng.shuffle(inner)
+    inner = ("Either",) + tuple(inner)
+    if rng.random() < 0.25:      # one level deeper
+        inner = ("Either", rng.choice(FAST_SIMPLE), inner)
+    pre = [rng.choice(FAST_SIMPLE)] if rng.random() < 0.6 else []
+    post = [rng.choice(GREEDY)]
+    if rng.random() < 0.4:
+        post.insert(rng.randrange(2), rng.choice(GREEDY + FAST_SIMPLE))
+    return ("Either",) + tuple(pre) + (inner,) + tuple(post)
+
+
 def member_pool():
     """Member specs the random compounds draw from: (spec, weight)."""
     P = []
@@ -971,11 +1064,13 @@ def random_compound(rng, pool, weights):
     form = rng.random()
     n = rng.choice((2, 2, 3, 3, 4))
     members = rng.choices(pool, weights=weights, k=n)
-    if form < 0.7:
+    if form < 0.6:
         if rng.random() < 0.25:
             members.insert(rng.randrange(len(members) + 1), ("None",))
         return ("Either",) + tuple(members)
-    if form < 0.85:
+    if form < 0.72:
+        return random_nested_mixed(rng)
+    if form < 0.86:
         # Tuple whose members are compounds / atoms
         inner = []
         for _ in range(rng.choice((1, 2, 2, 3))):
@@ -1036,6 +1131,13 @@ def run(ctx):
                     ctx.count("mixed_compound_specs")
                 if len(b.alts) > b.top_alts:
                     ctx.count("nested_compound_specs")
+                seen_slow = False
+                for a in b.alts:
+                    if not a.fast:
+                        seen_slow = True
+                    elif seen_slow:
+                        ctx.count("nested_slow_before_fast_specs")
+                        break
             if len(ctx.samples) < 2 and n:
                 ctx.sample({"spec": spec, "descriptor": short(descriptor_of(b.ct), 160),
                             "values": n, "kind": b.kind})
@@ -1050,6 +1152,10 @@ def run(ctx):
     for i, spec in enumerate(fixed_compounds()):
         if ctx.mine(i + 5):
             one("fixed:%d" % i, spec, None, ("fixed", i))
+    # ---- stratum: nested compounds mixing slow inner members with later fast ones ----
+    for i, spec in enumerate(nested_mixed_compounds()):
+        if ctx.mine(i + 3):
+            one("nested:%d" % i, spec, None, ("nested", i))
     # ---- seeded random compounds -------------------------------------------------
     pool_w = member_pool()
     pool = [p for p, _ in pool_w]
